@@ -201,6 +201,14 @@ def run(ctx):
         systematic.append((e_, tg_, nm_, False))
         if cls_.order <= 2 and cls_.itmd_type != "re_residual":
             systematic.append((e_, tg_, nm_, True))
+        if nm_ in ("t1_2", "p0_2_oo", "p0_2_vv", "t2eri_3", "t2sq"):
+            # powers: every factor of the power needs its own contracted
+            # indices
+            e2_ = t_ ** 2 * NonSymmetricTensor("wo", ro) * \
+                NonSymmetricTensor("wv", rv)
+            tg2_ = list(ro) + list(rv)    # the tensor's indices occur twice
+            systematic.append((e2_, tg2_, nm_, False))
+            systematic.append((e2_, tg2_, nm_, True))
     for k in range(n_exp + len(systematic)):
         occ, virt = G.pool("o", 8), G.pool("v", 8)
         ntg = rng.choice([(0, 0), (1, 1), (2, 2)])
@@ -254,7 +262,8 @@ def run(ctx):
             ctx.note(f"expand case outside the fragment: {ex}")
             continue
         n_tens = max((sum(1 for a, inv in fs if a[0] == "T"
-                          and a[2] != "e") for c, fs in p_lib), default=0)
+                          and a[2] not in ("e", "w", "wo", "wv"))
+                      for c, fs in p_lib), default=0)
         if n_tens > (5 if quick else 6):
             # products of several expanded intermediates: the certificate
             # search needs large automorphism averages; left to smaller
@@ -363,6 +372,8 @@ def run(ctx):
                           itmds[name].itmd_type, None])
         if quick and sel is None:
             sel = [name]
+        if k in (0, 1):
+            sel = [name]     # the fixed cases: cheap and load independent
         max_order = rng.choice([None, None, 2, 3])
         t0 = time.time()
         try:
@@ -373,6 +384,18 @@ def run(ctx):
             # run time is not part of the property: counted, not a violation
             ctx.dist["factor:time-limit"] = \
                 ctx.dist.get("factor:time-limit", 0) + 1
+            continue
+        except RuntimeError as ex:
+            if "Invalid contracted itmd indices" in str(ex):
+                # explicit refusal of the library (its own consistency
+                # check), no result is returned: counted
+                ctx.dist["factor:refused-contracted-indices"] = \
+                    ctx.dist.get("factor:refused-contracted-indices", 0) + 1
+                continue
+            ctx.violation(f"C11:factor-exception:{name}:{mode}",
+                          f"factor_intermediates raised {ex!r}",
+                          {"expr": str(inp.sympy)[:500], "select": repr(sel),
+                           "max_order": max_order}, False)
             continue
         except Exception as ex:
             ctx.violation(f"C11:factor-exception:{name}:{mode}",
@@ -468,7 +491,8 @@ def run(ctx):
         e2s = str(getattr(p.e2, "sympy", p.e2))
         if not ctx.obligation(f"{p.label}: {e2s[:60]}", p.ok, p.err):
             ctx.violation(
-                f"C11:{p.label}:{e2s[:140]}",
+                (f"C11:{p.label}" if p.label.startswith("factor:")
+                 else f"C11:{p.label}:{e2s[:140]}"),
                 f"{p.label.split(':')[0]}: result not proved equal in value "
                 "to the expected expansion",
                 {"relation": p.label, "case": EQ.describe(p, 1500),
